@@ -178,6 +178,66 @@ Proof.
   - vm_compute. repeat split; reflexivity.
 Qed.
 
+(* ---- Session 3: the capacity table is the calendar model ----
+   The scheduler theorems above are stated for an abstract capacity function; in the correspondence run it is
+   [cap_of] of a table the harness fills from the real calendars.  [check_captie] (third pass of harness/props/c03.py,
+   over every on-grid case) evaluates the calendar model of C17 - exact rationals, the case's calendar expressions
+   built through the model's constructors, the default calendar of gen/Consts.v for a resource nobody supplied - on
+   every day of the window and of the two weekly patterns.  Code 0 means: *)
+From PJ Require Import Cal.Calendar Cal.CalendarCap Cal.CalendarCapQ Sched.CapTie Sched.CapTieProofs.
+From Coq Require Import QArith.
+Local Open Scope Z_scope.
+
+(* every expression builds, and each compared entry is the model's answer at 00:00 of that day, times K:
+   on the window [cap_of] IS [cap_of_qcals] of the case's calendars *)
+Theorem C03_captie_meaning : forall c r,
+  check_captie c = 0%nat -> (r < length (t_res c))%nat ->
+  qbuild (the_expr (fst (nth r (t_res c) (None, no_rescal)))) = Ok (tie_cals c r) /\
+  (aligned_calb (tie_cals c r) = true ->
+   forall d, in_ext_window (nth r (tie_tables c) no_rescal) d ->
+   (inject_Z (cap_of (tie_tables c) r d) == cap_of_qcals (tie_cals c) r d * inject_Z (t_scale c))%Q).
+Proof. exact captie_meaning. Qed.
+
+(* the calendar's answer at ANY instant of such a day is the table entry of the day (day independence, a theorem
+   of the calendar model for day-aligned expressions, instead of the runner's probe at 13:00:00.000007) *)
+Theorem C03_captie_any_time : forall c r,
+  check_captie c = 0%nat -> (r < length (t_res c))%nat -> aligned_calb (tie_cals c r) = true ->
+  forall t, in_ext_window (nth r (tie_tables c) no_rescal) (day_of t) ->
+  exists q, qunits (tie_cals c r) t = Ok q /\
+            (q * inject_Z (t_scale c) == inject_Z (cap_of (tie_tables c) r (day_of t)))%Q.
+Proof. exact captie_any_time. Qed.
+
+(* the hypothesis [cap_nonneg] of C03_forward / C03_backward (and of C02 - C09, C14) for the configuration the
+   harness builds, on EVERY day (outside the compared days the table repeats its weekly patterns): from the
+   non-negativity theorem of the calendar model, not from an inspection of the table *)
+Theorem C03_captie_cap_nonneg : forall c fwd bal de pb nw,
+  check_captie c = 0%nat -> 0 <= t_scale c ->
+  (forall r, (r < length (t_res c))%nat -> aligned_calb (tie_cals c r) = true /\ nonneg_qcalb (tie_cals c r) = true) ->
+  cap_nonneg (mk_config fwd (tie_tables c) bal de pb nw).
+Proof. exact captie_cap_nonneg_config. Qed.
+
+(* the rational twins of C17_cap_nonneg / C17_cap_any_time (Props_C17.v states them for exact integers) *)
+Theorem C03_captie_model_nonneg : forall cs : nat -> cal Q,
+  (forall r, nonneg_cal 0%Q Qle (cs r)) -> forall r d, (0 <= cap_of_qcals cs r d)%Q.
+Proof. exact cap_of_qcals_nonneg. Qed.
+
+Theorem C03_captie_model_any_time : forall cs : nat -> cal Q,
+  (forall r, aligned_cal (cs r)) ->
+  forall r t v, qunits (cs r) t = Ok v -> qunits (cs r) t = Ok (cap_of_qcals cs r (day_of t)).
+Proof. exact cap_of_qcals_any_time. Qed.
+
+(* non-vacuity: a default resource and  (Mon-Fri 8 from Tue 2029-01-02) * 0.5 | Saturdays 2  (before its validity the
+   weekly operand is skipped and the scalar alone answers: half a unit every day - same on the implementation), K = 8,
+   window Mon-Wed: tied; both calendars day aligned and non-negative; a table with a doubled Friday is code 2 *)
+Example C03_captie_example :
+  check_captie (tie_example 32) = 0%nat /\ check_captie (tie_example 64) = 2%nat /\
+  (forall r, (r < length (t_res (tie_example 32)))%nat ->
+     aligned_calb (tie_cals (tie_example 32) r) = true /\ nonneg_qcalb (tie_cals (tie_example 32) r) = true) /\
+  cap_of (tie_tables (tie_example 32)) 1 21550 = 4 /\ cap_of (tie_tables (tie_example 32)) 1 21551 = 32 /\
+  cap_of (tie_tables (tie_example 32)) 1 30004 = 16 /\
+  cap_nonneg (mk_config true (tie_tables (tie_example 32)) true 0 0 0).
+Proof. exact tie_example_ok. Qed.
+
 Print Assumptions C03_forward.
 Print Assumptions C03_backward.
 Print Assumptions C03_oracle_meaning.
@@ -200,3 +260,9 @@ Print Assumptions C03_report_checker_meaning.
 Print Assumptions C03_report_checker_complete.
 Print Assumptions C03_default_tabulation.
 Print Assumptions C03_report_example.
+Print Assumptions C03_captie_meaning.
+Print Assumptions C03_captie_any_time.
+Print Assumptions C03_captie_cap_nonneg.
+Print Assumptions C03_captie_model_nonneg.
+Print Assumptions C03_captie_model_any_time.
+Print Assumptions C03_captie_example.
